@@ -195,17 +195,6 @@ def run(ctx: vlib.Ctx):
     drv = proj.driver()
     findings = vlib.load_findings(ctx.prop)
 
-    # -- replay of a stored failing case ------------------------------------------------------
-    if ctx.replay:
-        rp = json.loads(Path(ctx.replay).read_text())
-        case = rp.get("case")
-        if case:
-            r = H.work_absent(case) if case.get("kind") == "absent" else (H.work_tristate(case) if case.get("kind") == "tristate" else H.oracle_history(case))
-            ctx.case(case)
-            if r["status"] == "fail":
-                ctx.failures.append({"case": case, **{k: v for k, v in r.items() if k != "status"}})
-        return
-
     # -- known findings: replay every witness ---------------------------------------------------
     for f in findings:
         try:
@@ -219,6 +208,22 @@ def run(ctx: vlib.Ctx):
             ctx.notes.append(f"known finding {f['id']} did not reproduce (fixed?)")
     open_ids = {f["id"] for (f, _d) in ctx.known_reproduced}
     active = [f for f in findings if f["id"] in open_ids]     # a class only suppresses while its witness still fails
+
+    # -- replay of a stored failing case ------------------------------------------------------
+    if ctx.replay:
+        rp = json.loads(Path(ctx.replay).read_text())
+        case = rp.get("case")
+        if case:
+            r = H.work_absent(case) if case.get("kind") == "absent" else (H.work_tristate(case) if case.get("kind") == "tristate" else H.oracle_history(case))
+            ctx.case(case)
+            if r["status"] == "fail":
+                f = classify(active, case, r.get("step", 0))
+                if f is not None:
+                    ctx.known_hits[f["id"]] = ctx.known_hits.get(f["id"], 0) + 1
+                    ctx.notes.append(f"the replayed case fails inside the open known-finding class {f['cls']} ({f['id']})")
+                else:
+                    ctx.failures.append({"case": case, **{k: v for k, v in r.items() if k != "status"}})
+        return
 
     # -- histories: oracle on the real entry points + correspondence of applyRequest -------------
     import time
